@@ -72,12 +72,41 @@ def exec_scripts(scripts, outdir, chunk_events=3000, est=None):
 
     hangs = []
     with cf.ThreadPoolExecutor(max_workers=NCPU) as ex:
-        for pair, rc, err in ex.map(run, files):
-            if rc == 3:
-                hangs.append(pair)
-            elif rc != 0:
-                raise ToolError("harness failed on %s: %s" % (pair[0], err))
-    return files, hangs
+        results = list(ex.map(run, files))
+    out_files = []
+    for pair, rc, err in results:
+        if rc == 3:
+            hangs.append(("hang", pair[0], None))
+            out_files.append(pair)
+        elif rc < 0 or rc in (134, 139, 101):
+            # the library brought the process down (abort / stack overflow / segfault): that is data, not a tool
+            # error. Re-run the chunk one script per process to find the culprit(s) and keep the traces of the rest.
+            sf, tf = pair
+            scripts_in = [json.loads(l) for l in open(sf) if l.strip()]
+            good = []
+            for k, s in enumerate(scripts_in):
+                s1 = "%s.one%d" % (sf, k)
+                t1 = "%s.one%d" % (tf, k)
+                with open(s1, "w") as f:
+                    f.write(json.dumps(s, separators=(",", ":")) + "\n")
+                p = subprocess.run([ENRH, "exec", s1, t1], stdout=subprocess.PIPE, stderr=subprocess.PIPE, text=True)
+                if p.returncode == 0:
+                    good.append(t1)
+                elif p.returncode == 3:
+                    hangs.append(("hang", s1, s))
+                elif p.returncode < 0 or p.returncode in (134, 139, 101):
+                    hangs.append(("crash", s1, s))
+                else:
+                    raise ToolError("harness failed on %s: %s" % (s1, p.stderr[-2000:]))
+            with open(tf, "w") as f:
+                for t1 in good:
+                    f.write(open(t1).read())
+            out_files.append(pair)
+        elif rc != 0:
+            raise ToolError("harness failed on %s: %s" % (pair[0], err))
+        else:
+            out_files.append(pair)
+    return out_files, hangs
 
 
 BAD_RE = re.compile(r'^"BAD (.*)"$')
